@@ -87,6 +87,8 @@ def c01_relevant(kind, rec, case):
 
 
 def c02_relevant(kind, rec, case):
+    if "bigsearch" in case.desc:
+        return kind in ("bad", "panic", "partial", "same", "hang")  # known-answer families on larger models
     if kind == "nlsearch":
         return True
     if kind == "verdict":
@@ -152,6 +154,7 @@ PROPS = {
             {"name": "symmetric", "mode": "answers", "quick": 1500, "thorough": 12000,
              "args": ["--mix", "iterate=3,satisfy=1", "--sympct", "100"]},
             {"name": "nlsearch", "mode": "nlsearch", "quick": 1500, "thorough": 40000, "args": []},
+            {"name": "bigsearch", "mode": "bigsearch", "quick": 1200, "thorough": 20000, "args": []},
         ],
         "lean_modules": ["Pumpkin.Model.SemMin", "Pumpkin.Model.RecMin", "Pumpkin.Model.PropagationCompile", "Pumpkin.Model.Search", "Pumpkin.Model.Narrow"],
         "relevant": c02_relevant,
@@ -200,6 +203,7 @@ PROPS = {
     "C07": {
         "streams": [
             {"name": "configs", "mode": "configs", "quick": 120, "thorough": 3000, "args": ["--nconfigs", "6", "--maxproduct", "6000"]},
+            {"name": "bigsearch", "mode": "bigsearch", "quick": 1200, "thorough": 20000, "args": []},
         ],
         "relevant": c07_relevant,
         "level_text": "Proof: the specification-level answers are functions of the model alone; accepted_sets_agree / accepted_optima_agree / iterate_config_free / optimise_config_free: any two accepted answers (or any two sound+complete solve procedures) agree on verdict, solution set (as permutation) and optimum. Tie to code: each generated model is solved under 6 option vectors (default, NoLearning, frequent restarts, database limits 0-5, both sortings, seeds, all brancher families) and every answer is judged against the oracle, hence pairwise equal.",
